@@ -101,8 +101,8 @@ def keys_of(v):
 
 
 def slicer_tags(spec, gen, ser="writer"):
-    """known-finding tags derived from the INPUT only (the table, the header strings, the key order of the
-    serialisation)"""
+    """known-finding tags derived from the INPUT only (the table and the header strings; the recorded findings are
+    about the key orders the library writes, so the serialisation plays no part)"""
     tags = []
     strs = list(spec["obs"]) + list(spec["samp"])
     for md in (spec.get("omd"), spec.get("smd")):
@@ -111,20 +111,9 @@ def slicer_tags(spec, gen, ser="writer"):
                 strs.extend(strings_of(e))
     if any(scanner_confused(s) for s in strs):
         tags.append(T_QUOTE)
-    # a metadata category named like a top-level key that comes LATER in the text than the records holding it
-    if ser.startswith("sorted"):
-        after_rows = set(SORTED_ORDER[SORTED_ORDER.index("rows") + 1:])
-        after_cols = set(SORTED_ORDER[SORTED_ORDER.index("columns") + 1:])
-    else:
-        after_rows, after_cols = {"columns"}, set()
-    if (spec.get("omd") and any(k in after_rows for e in spec["omd"] for k in keys_of(e))) or \
-            (spec.get("smd") and any(k in after_cols for e in spec["smd"] for k in keys_of(e))):
+    if spec.get("omd") and any(k == "columns" for e in spec["omd"] for k in keys_of(e)):
         tags.append(T_MDKEY)
     header = [str(spec.get("table_id")), gen, spec.get("type") or ""]
-    if ser.startswith("sorted") and spec["samp"]:
-        # alphabetical key order: the first '"id":' of the text is the first column record's, and that is
-        # what the slicer copies (by its "number" branch) as the table id
-        header.append(spec["samp"][0])
     if any(c in h for h in header for c in ",{}"):
         tags.append(T_HEADER)
     return tags
@@ -397,6 +386,33 @@ def cli_result(fx, kind, ids, axis, n, inj_path=None, deco="columns", ser="write
 
 
 # ----------------------------------------------------------------------------- one case
+def observe_out_of_domain(ctx, fx, variant, ids, axis, ser, cli=False, deco="columns"):
+    """alphabetical key order (json.dumps sort_keys) is written by no library function: key order is neither
+    separators nor indentation, so these texts are OUTSIDE the property's quantifier.  What the real code does
+    there is counted, never judged and never mapped onto a recorded finding."""
+    if cli:
+        res, _ = cli_result(fx, variant, ids, axis, ctx.evaluations, None, deco, ser)
+    else:
+        res, _ = real_result(fx, variant, ids, axis, ser)
+    if "error" in res:
+        what = "error=" + res["error"]
+        if variant == "cmdjson" and fx.spec.get("type") is None and res["error"] == "Index":
+            what = "IndexError('type': null is the last member)"
+    else:
+        r = ctx.driver.ask({"op": "subset", "variant": variant, "axis": axis, "ids": list(ids),
+                            "full": fx.full_json_obs, "result": res, "doc": fx.doc})
+        what = "table-as-expected" if r["holds"] else "table-differs"
+        if variant == "cmdjson" and not cli:
+            try:
+                from biom.cli.table_subsetter import _subset_table
+                out = json.loads("".join(_subset_table(None, serialise(fx, ser), axis, list(ids))[0]))
+                if fx.spec["samp"] and out.get("id") == fx.spec["samp"][0]:
+                    what += ",table-id=first-column-record-id"
+            except Exception:  # noqa
+                pass
+    ctx.count("out-of-domain:sort_keys:%s:%s" % (variant, what))
+
+
 def check_case(ctx, fx, variant, ids, axis, ser="writer", how="list", form="str", tags=(), cli=False,
                result=None, opts=None, inj_path=None, deco="columns"):
     opts = opts or {}
@@ -405,6 +421,9 @@ def check_case(ctx, fx, variant, ids, axis, ser="writer", how="list", form="str"
            "deco": deco if cli else None}
     axis_ids = fx.spec["samp"] if axis == "sample" else fx.spec["obs"]
     known = all(i in axis_ids for i in ids)
+    if ser.startswith("sorted"):
+        observe_out_of_domain(ctx, fx, variant, ids, axis, ser, cli, deco)
+        return None
     ctx.case(inp, nontrivial=len(axis_ids) >= 2)
     if result is None:
         if cli:
@@ -728,7 +747,8 @@ def run_fixture(ctx, fx, rng, quick, tags=(), sers=MAIN_SERS, light=False):
         # raw-text layer
         if not fx.tags:
             for ser in sers:
-                check_text(ctx, fx, reqs[rng.randrange(len(reqs))], axis, ser)
+                if not ser.startswith("sorted"):
+                    check_text(ctx, fx, reqs[rng.randrange(len(reqs))], axis, ser)
     if not light:
         handle_sequence(ctx, fx, rng)
     if not fx.unchanged():
@@ -989,21 +1009,14 @@ def ser_stream(ctx, rng, n0):
             for ser in MAIN_SERS + DIO_SERS + SORTED_SERS + ["tab-noascii", "indent1"]:
                 for axis, ids in (("sample", ["S3", "S1"]), ("observation", ["O2"]), ("sample", ["S2"]),
                                   ("observation", ["O3", "O1", "O2"])):
-                    if ser.startswith("sorted") and spec["type"] is None:
-                        # alphabetical order puts "type": null last: outside what the library writes; observed,
-                        # reported to the lead, not judged
-                        res, _ = real_result(fx, "cmdjson", ids, axis, ser=ser)
-                        ctx.count("observed:sorted-keys+type-null:" + ("error=" + res["error"] if "error" in res else "ok"))
-                        continue
                     check_case(ctx, fx, "cmdjson", ids, axis, ser=ser, tags=["serialisations"])
                     if ser in ("direct_io", "dio-indent2", "sorted"):
                         check_case(ctx, fx, "jsonparse", ids, axis, ser=ser, tags=["serialisations"])
-                if not (ser.startswith("sorted") and spec["type"] is None):
+                if not ser.startswith("sorted"):
                     check_text(ctx, fx, ["S4", "S2"], "sample", ser)
             for ser in ("direct_io", "dio-default", "sorted"):
-                if not (ser.startswith("sorted") and spec["type"] is None):
-                    check_case(ctx, fx, "cmdjson", ["O3"], "observation", ser=ser, cli=True, deco="plain",
-                               tags=["serialisations", "cli"])
+                check_case(ctx, fx, "cmdjson", ["O3"], "observation", ser=ser, cli=True, deco="plain",
+                           tags=["serialisations", "cli"])
         finally:
             fx.close()
     ctx.count("stream=serialisations")
@@ -1115,7 +1128,7 @@ def run(ctx):
                          poke=rng.randrange(10 ** 6) if k % 3 else None)
             ctx.count("stream=main")
             ctx.count("poked=%s" % ("yes" if fx.poked else "no"))
-            extra = [e for e in EXTRA_SERS if spec["type"] is not None or not e.startswith("sorted")]
+            extra = EXTRA_SERS
             sers = MAIN_SERS + (["direct_io"] if k % 2 == 0 else []) + \
                 ([extra[k % len(extra)], extra[(k + 4) % len(extra)]] if k % 3 == 0 else [])
             try:
